@@ -21,7 +21,7 @@ GInit == Init /\ hist = <<>>
 GNext ==
   \/ \E v \in 0..MaxVer : FetchRoot(v) /\ H([op |-> "read", who |-> Who(v), depth |-> 1])
   \/ \E v \in 0..MaxVer : \E n \in Ids : FetchKid(v, n) /\ H([op |-> "read", who |-> Who(v), depth |-> mem[n].slot + 1])
-  \/ Overwrite /\ H([op |-> "overwrite", who |-> "main", depth |-> 1])
+  \/ \E d \in 1..Depth : Overwrite(d) /\ H([op |-> "overwrite", who |-> "main", depth |-> d])
   \/ CloseSnap /\ H([op |-> "close", who |-> "snap", depth |-> 0])
   \/ CloseMain /\ H([op |-> "close", who |-> "main", depth |-> 0])
   \/ \E v \in 0..MaxVer : Release(v) /\ UNCHANGED hist
